@@ -57,6 +57,16 @@ VerdictC(p, e, s) ==
               IN IF Bip37Idx(f0, e.item) \subseteq f0.bits /\ \E g \in 1..Len(e.rets) : ~e.rets[g] THEN V("concurrent-match-missed", "all true", e.rets)
                  ELSE IF SetOfSeq(e.final) # want THEN V("lost-or-spurious-outpoint-update", [missing |-> want \ SetOfSeq(e.final), extra |-> SetOfSeq(e.final) \ want], Len(e.txids))
                  ELSE OK
+         [] e.op = "TxReloadRound" ->
+              \* an empty message matches nothing in any sequential order: it is never written to; a matching message
+              \* only gains the bits of the transaction's outpoint 0 under its own tweak
+              LET fa == Loaded(e.nbytes, e.nhash, e.ta, 1, SetOfSeq(e.init))
+                  op0 == Bip37Idx(fa, OutPointBytes(e.txid, <<0, 0>>))
+              IN IF Len(e.bdirty) > 0 THEN V("update-applied-to-a-message-that-never-matched", {}, e.bdirty)
+                 ELSE IF ~(SetOfSeq(e.aextra) \subseteq op0) THEN V("lost-or-spurious-outpoint-update", op0, e.aextra)
+                 ELSE OK
+         [] e.op = "LoadedRound" ->
+              IF e.mismatches = 0 THEN OK ELSE V("isloaded-disagrees-with-loaded-message-at-quiescence", 0, [mismatches |-> e.mismatches, first_round |-> e.first])
          [] e.op = "RaceDetector" -> IF e.reports = 0 THEN OK ELSE V("data-race", 0, e.first)
          [] e.op = "GcsConc" -> IF e.bytesbefore # e.bytesafter THEN V("gcs-filter-mutated-by-queries", 0, 1)
                                 ELSE IF \E g \in 1..Len(e.conc) : e.conc[g] # e.seq THEN V("gcs-concurrent-answers-differ", e.seq, "differs")
